@@ -186,6 +186,106 @@ def make_ignore(mode, lo, hi, full=False, props=("C14",), known=()):
     return h, dict(reset=common.nbdime_reset)
 
 
+KEYSPEC = [("/metadata", "kernelspec"), ("/metadata", "nbk"), ("/cells/*/metadata", "tags"),
+           ("/cells/*/metadata", "k0"), ("/cells/*/outputs/*/metadata", "om")]
+
+
+def make_ignore_keys(lo, hi, props=("C14",), known=()):
+    """'Ignore' mappings whose values are key lists (config.rst: "for maps,
+    you can additionally specify a list of keys to ignore"): every subset of
+    five (path, key) pairs is ignored, every subset of them differs between A
+    and B -- by replacement for scalar values, by an in-place change for the
+    values that are containers (kernelspec object, tags list)."""
+    def h(E):
+        from nbdime.diffing import notebooks as nbs
+        mask = lo + E.choice("ignored", hi - lo)
+        ignored = [KEYSPEC[i] for i in range(len(KEYSPEC)) if mask >> i & 1]
+        differs = [KEYSPEC[i] for i in range(len(KEYSPEC)) if E.choice("d%d" % i, 2)]
+        ctx = G.Ctx(E, True, sym=("md",))
+        code = G.mk_cell(ctx, dict(type="code", src="A", outputs=["result_md"], md=1, tags=["a", "b"]), "b0", idx=0)
+        A = G.mk_notebook(ctx, [code], "b")
+        c2 = dict(code)
+        nbmd = dict(A["metadata"])
+        cm = dict(code["metadata"])
+        for path, key in differs:
+            if key == "kernelspec":
+                nbmd["kernelspec"] = dict(nbmd["kernelspec"], display_name="Python 3 (other)")
+            elif key == "nbk":
+                nbmd["nbk"] = ctx.md("l")
+            elif key == "tags":
+                cm["tags"] = list(cm["tags"]) + ["c"]
+            elif key == "k0":
+                cm["k0"] = ctx.md("l")
+            else:
+                outs = list(c2["outputs"])
+                o = dict(outs[0])
+                o["metadata"] = {"om": ctx.md("l")}
+                outs[0] = o
+                c2["outputs"] = outs
+        c2["metadata"] = cm
+        B = dict(A)
+        B["cells"] = [c2]
+        B["metadata"] = nbmd
+        A, B = G.finalize(A), G.finalize(B)
+        mapping = {}
+        for path, key in ignored:
+            mapping.setdefault(path, []).append(key)
+        nbs.reset_notebook_differ()
+        try:
+            nbs.set_notebook_diff_ignores(mapping)
+            d = nbs.diff_notebooks(A, B)
+        except Exception as ex:  # noqa
+            E.fail("raised", "%s: %s (mapping %r)" % (type(ex).__name__, str(ex)[:160], mapping))
+            return
+        finally:
+            nbs.reset_notebook_differ()
+        E.nontrivial(bool(ignored) and bool(differs))
+        E.goal("key-list-ignore-with-in-place-change", any(k in ("kernelspec", "tags") for _, k in ignored)
+               and any(k in ("kernelspec", "tags") for _, k in differs))
+        info = "mapping %r differences %r" % (mapping, differs)
+
+        def hidden(path):
+            from oracles.category import star
+            sp = "/" + "/".join(star(path[:-1]))
+            return any(sp == p_ and path[-1] == k_ for p_, k_ in ignored)
+        from oracles.category import entries_with_paths
+        bad = []
+        for pth, e in entries_with_paths(d):
+            for cut in range(1, len(pth) + 1):
+                if hidden(pth[:cut]):
+                    bad.append("/" + "/".join(str(x) for x in pth))
+                    break
+        E.check("nothing-reported-under-an-ignored-key", not bad, info="%s: %s" % (info, bad[:3]))
+
+        def proj(nb):
+            out = dict(nb)
+            out["metadata"] = {k: v for k, v in nb["metadata"].items() if ("/metadata", k) not in ignored}
+            cells = []
+            for c in nb["cells"]:
+                c_ = dict(c)
+                c_["metadata"] = {k: v for k, v in c["metadata"].items() if ("/cells/*/metadata", k) not in ignored}
+                outs = []
+                for o in c.get("outputs", []):
+                    o_ = dict(o)
+                    if "metadata" in o_:
+                        o_["metadata"] = {k: v for k, v in o["metadata"].items()
+                                          if ("/cells/*/outputs/*/metadata", k) not in ignored}
+                    outs.append(o_)
+                c_["outputs"] = outs
+                cells.append(c_)
+            out["cells"] = cells
+            return out
+        try:
+            r = refpatch(A, d)
+        except RefPatchError as ex:
+            E.fail("refpatch-rejects-diff", "%s: %s" % (info, ex))
+            return
+        E.check("patch-reproduces-target-outside-ignored-keys", json_identical(proj(r), proj(B)), info=info)
+        if len(d) > 0:
+            E.check("only-ignored-keys-differ=>empty-diff", lnot(json_identical(proj(A), proj(B))), info=info)
+    return h, dict(reset=common.nbdime_reset)
+
+
 def shards(tier, props, known):
     kw = dict(props=tuple(props), known=tuple(known))
     out = []
@@ -194,4 +294,6 @@ def shards(tier, props, known):
         for lo in range(0, 64, step):
             out.append(("make_ignore", "ign-%s-%d" % (mode, lo),
                         dict(mode=mode, lo=lo, hi=lo + step, full=(tier == "thorough" and mode in ("targets", "negative-flags")), **kw)))
+    for lo in range(0, 32, 8):
+        out.append(("make_ignore_keys", "ignkeys-%d" % lo, dict(lo=lo, hi=lo + 8, **kw)))
     return out
